@@ -335,7 +335,14 @@ def check_marg(case, ctx):
     # marginal_icdf
     ps = np.array(sorted(case["ps"]), dtype=float)
     np.random.seed(case["seed"] % (2**32))
-    ok, q = ctx.call("marginal_icdf", model.marginal_icdf, ps, dim)
+    if case["seed"] % 3 == 0:
+        ok, q = ctx.call("marginal_icdf", model.marginal_icdf, ps, dim)
+        ctx.cls("marginal_icdf:random_state=None")
+    else:
+        # Monte-Carlo quantiles from an explicitly seeded sample (int seeds, 0 and 1 included): same statistical claim
+        rs = {1: 0, 2: 1}.get(case["seed"] % 7, case["seed"] % (2**31))
+        ok, q = ctx.call("marginal_icdf", lambda: model.marginal_icdf(ps, dim, random_state=rs))
+        ctx.cls("marginal_icdf:random_state=int")
     if ok:
         q = np.asarray(q, dtype=float)
         if q.shape != ps.shape:
